@@ -25,7 +25,8 @@
 (***************************************************************************)
 EXTENDS Integers, Sequences, FiniteSets, TLC, Json
 
-CONSTANTS MaxStarts, MaxDrops, MaxDups, TieBreak, RoleByAddress
+CONSTANTS MaxStarts, MaxDrops, MaxDups, TieBreak, RoleByAddress,
+          MaxForget   \* how often a router may lose its keys on its own (restart, idle sessions are cleaned up)
 
 Routers == {"A", "B"}
 Peer(x) == IF x = "A" THEN "B" ELSE "A"
@@ -38,11 +39,12 @@ VARIABLES live,     \* router -> [set |-> BOOLEAN, c, s, role]   keys = K(c, s)
           latest,   \* router -> newest stamp accepted from the peer
           fresh,    \* next fresh share / ping id
           nstart, ndrop, ndup,
+          nforget,
           errs,     \* router -> number of "no keys" errors it has sent (rate limited in the code)
           act
 
-vars == <<live, pending, net, clock, latest, fresh, nstart, ndrop, ndup, errs, act>>
-View == <<live, pending, net, clock, latest, fresh, nstart, ndrop, ndup, errs>>
+vars == <<live, pending, net, clock, latest, fresh, nstart, ndrop, ndup, errs, nforget, act>>
+View == <<live, pending, net, clock, latest, fresh, nstart, ndrop, ndup, errs, nforget>>
 
 NoKeys == [set |-> FALSE, c |-> 0, s |-> 0, role |-> "none"]
 NoPending == [open |-> FALSE, id |-> 0, c |-> 0, done |-> FALSE]
@@ -53,7 +55,7 @@ Init == /\ live = [x \in Routers |-> NoKeys]
         /\ clock = [x \in Routers |-> 0] /\ latest = [x \in Routers |-> 0]
         /\ fresh = 1
         /\ nstart = [x \in Routers |-> 0] /\ ndrop = 0 /\ ndup = 0
-        /\ errs = [x \in Routers |-> 0]
+        /\ errs = [x \in Routers |-> 0] /\ nforget = 0
         /\ act = [name |-> "init"]
 
 Msg(to, kind, id, share, stamp) == [to |-> to, kind |-> kind, id |-> id, share |-> share, stamp |-> stamp, n |-> 0]
@@ -69,7 +71,7 @@ Start(x) ==
   /\ fresh' = fresh + 2
   /\ nstart' = [nstart EXCEPT ![x] = @ + 1]
   /\ act' = [name |-> "start", at |-> x]
-  /\ UNCHANGED <<live, latest, ndrop, ndup, errs>>
+  /\ UNCHANGED <<live, latest, ndrop, ndup, errs, nforget>>
 
 (* A message is taken off the network and handled by its receiver.           *)
 Recv(m) ==
@@ -80,14 +82,14 @@ Recv(m) ==
         THEN \* strict time sequence: duplicates and overtaken older pings are dropped
              /\ net' = net \ {m}
              /\ act' = [name |-> "recv", m |-> m, outcome |-> "stale"]
-             /\ UNCHANGED <<live, pending, clock, latest, fresh>>
+             /\ UNCHANGED <<live, pending, clock, latest, fresh, nforget>>
         ELSE /\ latest' = [latest EXCEPT ![y] = m.stamp]
              /\ CASE m.kind = "req" /\ RoleByAddress /\ Lower(y) ->
                      \* never serve: answer by initiating (unless an exchange is already open)
                      IF pending[y].open
                      THEN /\ net' = net \ {m}
                           /\ act' = [name |-> "recv", m |-> m, outcome |-> "ignored"]
-                          /\ UNCHANGED <<live, pending, clock, fresh>>
+                          /\ UNCHANGED <<live, pending, clock, fresh, nforget>>
                      ELSE /\ pending' = [pending EXCEPT ![y] = [open |-> TRUE, id |-> fresh, c |-> fresh + 1, done |-> FALSE]]
                           /\ clock' = [clock EXCEPT ![y] = @ + 1]
                           /\ net' = (net \ {m}) \cup {Msg(x, "req", fresh, fresh + 1, clock[y] + 1)}
@@ -99,7 +101,7 @@ Recv(m) ==
                      THEN \* own exchange wins, ignore the request
                           /\ net' = net \ {m}
                           /\ act' = [name |-> "recv", m |-> m, outcome |-> "ignored"]
-                          /\ UNCHANGED <<live, pending, clock, fresh>>
+                          /\ UNCHANGED <<live, pending, clock, fresh, nforget>>
                      ELSE /\ live' = [live EXCEPT ![y] = [set |-> TRUE, c |-> m.share, s |-> fresh, role |-> "server"]]
                           /\ pending' = IF (TieBreak \/ RoleByAddress) /\ pending[y].open /\ ~pending[y].done
                                         THEN [pending EXCEPT ![y].done = TRUE]   \* abandon own exchange
@@ -114,21 +116,21 @@ Recv(m) ==
                           /\ pending' = [pending EXCEPT ![y].done = TRUE]
                           /\ net' = net \ {m}
                           /\ act' = [name |-> "recv", m |-> m, outcome |-> "completed"]
-                          /\ UNCHANGED <<clock, fresh>>
+                          /\ UNCHANGED <<clock, fresh, nforget>>
                      ELSE /\ net' = net \ {m}
                           /\ act' = [name |-> "recv", m |-> m, outcome |-> "rejected"]
-                          /\ UNCHANGED <<live, pending, clock, fresh>>
+                          /\ UNCHANGED <<live, pending, clock, fresh, nforget>>
                   [] m.kind = "err" ->
                      /\ live' = [live EXCEPT ![y] = NoKeys]
                      /\ net' = net \ {m}
                      /\ act' = [name |-> "recv", m |-> m, outcome |-> "cleared"]
-                     /\ UNCHANGED <<pending, clock, fresh>>
-  /\ UNCHANGED <<nstart, ndrop, ndup, errs>>
+                     /\ UNCHANGED <<pending, clock, fresh, nforget>>
+  /\ UNCHANGED <<nstart, ndrop, ndup, errs, nforget>>
 
 Drop(m) == /\ m \in net /\ ndrop < MaxDrops
            /\ net' = net \ {m} /\ ndrop' = ndrop + 1
            /\ act' = [name |-> "drop", m |-> m]
-           /\ UNCHANGED <<live, pending, clock, latest, fresh, nstart, ndup, errs>>
+           /\ UNCHANGED <<live, pending, clock, latest, fresh, nstart, ndup, errs, nforget>>
 
 (* Duplication: a second copy of a message in flight (n = 1).                *)
 Dup(m) == /\ m \in net /\ m.n = 0 /\ ndup < MaxDups
@@ -136,13 +138,13 @@ Dup(m) == /\ m \in net /\ m.n = 0 /\ ndup < MaxDups
           /\ ndup' = ndup + 1
           /\ act' = [name |-> "dup", m |-> m]
           /\ net' = net \cup {[m EXCEPT !.n = 1]}
-          /\ UNCHANGED <<live, pending, clock, latest, fresh, nstart, ndrop, errs>>
+          /\ UNCHANGED <<live, pending, clock, latest, fresh, nstart, ndrop, errs, nforget>>
 
 (* The active exchange times out (30 s) / its cool-down ends (5 s).          *)
 Expire(x) == /\ pending[x].open
              /\ pending' = [pending EXCEPT ![x] = NoPending]
              /\ act' = [name |-> "expire", at |-> x]
-             /\ UNCHANGED <<live, net, clock, latest, fresh, nstart, ndrop, ndup, errs>>
+             /\ UNCHANGED <<live, net, clock, latest, fresh, nstart, ndrop, ndup, errs, nforget>>
 
 (* Traffic from x reaches a peer that has no keys: it answers with the       *)
 (* "no encryption keys" error (a signed ping).                               *)
@@ -153,7 +155,17 @@ DataToKeyless(x) ==
   /\ clock' = [clock EXCEPT ![Peer(x)] = @ + 1]
   /\ net' = net \cup {Msg(x, "err", 0, 0, clock[Peer(x)] + 1)}
   /\ act' = [name |-> "data", at |-> x]
-  /\ UNCHANGED <<live, pending, latest, fresh, nstart, ndrop, ndup>>
+  /\ UNCHANGED <<live, pending, latest, fresh, nstart, ndrop, ndup, nforget>>
+
+(* A router loses its keys on its own: it was restarted, or its idle session   *)
+(* was cleaned up.  Its next packet for the peer starts a new set-up, which   *)
+(* the peer - still holding the old keys - serves in place.                   *)
+Forget(x) ==
+  /\ live[x].set /\ nforget < MaxForget
+  /\ live' = [live EXCEPT ![x] = NoKeys]
+  /\ nforget' = nforget + 1
+  /\ act' = [name |-> "forget", at |-> x]
+  /\ UNCHANGED <<pending, net, clock, latest, fresh, nstart, ndrop, ndup, errs>>
 
 Compatible == /\ live["A"].c = live["B"].c /\ live["A"].s = live["B"].s
               /\ live["A"].role # live["B"].role
@@ -164,6 +176,7 @@ Mismatch == Quiescent /\ live["A"].set /\ live["B"].set /\ ~Compatible
 Enabled2 == {<<"start", x>> : x \in {r \in Routers : nstart[r] < MaxStarts /\ ~live[r].set /\ ~pending[r].open}}
             \cup {<<"expire", x>> : x \in {r \in Routers : pending[r].open}}
             \cup {<<"data", x>> : x \in {r \in Routers : live[r].set /\ ~live[Peer(r)].set /\ errs[Peer(r)] = 0}}
+            \cup {<<"forget", x>> : x \in {r \in Routers : live[r].set /\ nforget < MaxForget}}
             \cup {<<"recv", m>> : m \in net} \cup {<<"recv", m>> : m \in net}
             \cup (IF ndrop < MaxDrops THEN {<<"drop", m>> : m \in net} ELSE {})
             \cup (IF ndup < MaxDups THEN {<<"dup", m>> : m \in {x \in net : x.n = 0 /\ [x EXCEPT !.n = 1] \notin net}} ELSE {})
@@ -173,14 +186,25 @@ NextSim == /\ ndrop >= 0
                 CASE e[1] = "start" -> Start(e[2])
                   [] e[1] = "expire" -> Expire(e[2])
                   [] e[1] = "data" -> DataToKeyless(e[2])
+                  [] e[1] = "forget" -> Forget(e[2])
                   [] e[1] = "recv" -> Recv(e[2])
                   [] e[1] = "drop" -> Drop(e[2])
                   [] e[1] = "dup" -> Dup(e[2])
 DumpStep == PrintT("OUT " \o ToJson([a |-> act', bad |-> Mismatch', net |-> net', live |-> live',
                                       first |-> (fresh = 1 /\ net = {} /\ nstart["A"] + nstart["B"] = 0)]))
 
-Next == \/ \E x \in Routers : Start(x) \/ Expire(x) \/ DataToKeyless(x)
+Next == \/ \E x \in Routers : Start(x) \/ Expire(x) \/ DataToKeyless(x) \/ Forget(x)
         \/ \E m \in net : Recv(m) \/ Drop(m) \/ Dup(m)
+
+(* Re-keying, one set-up at a time: a set-up completes undisturbed, one router    *)
+(* forgets its keys, the windows run out, and the set-up runs again against the  *)
+(* peer that still holds the old keys (the orderly sub-graph of Next).            *)
+NextRekey ==
+  \/ \E x \in Routers : Start(x) /\ net = {}
+                         /\ (nstart["A"] + nstart["B"] = 0 \/ (nforget = 1 /\ nstart["A"] + nstart["B"] = 1))
+  \/ \E m \in net : Recv(m)
+  \/ \E x \in Routers : Expire(x) /\ net = {} /\ nforget = 1
+  \/ \E x \in Routers : Forget(x) /\ net = {} /\ live["A"].set /\ live["B"].set
 
 Spec == Init /\ [][Next]_vars
 
